@@ -723,8 +723,17 @@ func (ce *callEngine) callNativeFunc(ctx context.Context, m *wasm.ModuleInstance
 		// how the stack is modified, etc.
 		switch op.Kind {
 		case operationKindBuiltinFunctionCheckExitCode:
-			if err := m.FailIfClosed(); err != nil {
+			// m is the module of the function that called f, which is an imported module when f runs two or more call
+			// levels below an import boundary. The goroutine spawned by CloseModuleOnCanceledOrTimeout closes the module
+			// this invocation was made on (ce.f.moduleInstance), so that is the one to poll; m is still polled so that
+			// closing the imported module keeps stopping the functions it runs.
+			if err := ce.f.moduleInstance.FailIfClosed(); err != nil {
 				panic(err)
+			}
+			if m != ce.f.moduleInstance {
+				if err := m.FailIfClosed(); err != nil {
+					panic(err)
+				}
 			}
 			frame.pc++
 		case operationKindUnreachable:
